@@ -275,12 +275,27 @@ func drvMisc(c *ctx) error {
 			{"MACPayload{port0}.MarshalBinary", func() error { _, e := lorawan.MACPayload{FPort: &p0}.MarshalBinary(); return e }},
 			{"PHYPayload{}.SetUplinkDataMIC", func() error { var ph lorawan.PHYPayload; return ph.SetUplinkDataMIC(lorawan.LoRaWAN1_1, 0, 0, 0, k, k) }},
 			{"PHYPayload{}.SetDownlinkDataMIC", func() error { var ph lorawan.PHYPayload; return ph.SetDownlinkDataMIC(lorawan.LoRaWAN1_1, 0, k) }},
-			{"PHYPayload{}.ValidateUplinkDataMIC", func() error { var ph lorawan.PHYPayload; _, e := ph.ValidateUplinkDataMIC(lorawan.LoRaWAN1_0, 0, 0, 0, k, k); return e }},
-			{"PHYPayload{}.ValidateDownlinkDataMIC", func() error { var ph lorawan.PHYPayload; _, e := ph.ValidateDownlinkDataMIC(lorawan.LoRaWAN1_0, 0, k); return e }},
+			{"PHYPayload{}.ValidateUplinkDataMIC", func() error {
+				var ph lorawan.PHYPayload
+				_, e := ph.ValidateUplinkDataMIC(lorawan.LoRaWAN1_0, 0, 0, 0, k, k)
+				return e
+			}},
+			{"PHYPayload{}.ValidateDownlinkDataMIC", func() error {
+				var ph lorawan.PHYPayload
+				_, e := ph.ValidateDownlinkDataMIC(lorawan.LoRaWAN1_0, 0, k)
+				return e
+			}},
 			{"PHYPayload{}.SetUplinkJoinMIC", func() error { var ph lorawan.PHYPayload; return ph.SetUplinkJoinMIC(k) }},
 			{"PHYPayload{}.ValidateUplinkJoinMIC", func() error { var ph lorawan.PHYPayload; _, e := ph.ValidateUplinkJoinMIC(k); return e }},
-			{"PHYPayload{}.SetDownlinkJoinMIC", func() error { var ph lorawan.PHYPayload; return ph.SetDownlinkJoinMIC(lorawan.JoinRequestType, eui, 0, k) }},
-			{"PHYPayload{}.ValidateDownlinkJoinMIC", func() error { var ph lorawan.PHYPayload; _, e := ph.ValidateDownlinkJoinMIC(lorawan.JoinRequestType, eui, 0, k); return e }},
+			{"PHYPayload{}.SetDownlinkJoinMIC", func() error {
+				var ph lorawan.PHYPayload
+				return ph.SetDownlinkJoinMIC(lorawan.JoinRequestType, eui, 0, k)
+			}},
+			{"PHYPayload{}.ValidateDownlinkJoinMIC", func() error {
+				var ph lorawan.PHYPayload
+				_, e := ph.ValidateDownlinkJoinMIC(lorawan.JoinRequestType, eui, 0, k)
+				return e
+			}},
 			{"PHYPayload{}.EncryptJoinAcceptPayload", func() error { var ph lorawan.PHYPayload; return ph.EncryptJoinAcceptPayload(k) }},
 			{"PHYPayload{}.DecryptJoinAcceptPayload", func() error { var ph lorawan.PHYPayload; return ph.DecryptJoinAcceptPayload(k) }},
 			{"PHYPayload{}.EncryptFOpts", func() error { var ph lorawan.PHYPayload; return ph.EncryptFOpts(k) }},
